@@ -99,6 +99,17 @@ class Intervals:
         l = pl["l"]
         proj = [proj_key(p) for p in pl["p"]]
         ds = b.defs(l)
+        # the value parameter of a closure handed to Option::map / map_or / and_then ... on the result of position()/rposition():
+        # an index into an in-memory sequence
+        if not proj and getattr(b, "kind", None) == "closure" and l == 2 and not ds:
+            facts = getattr(b, "facts", None)
+            parent = facts.bodies.get(re.sub(r"::\{closure#\d+\}$", "", b.path)) if facts else None
+            if parent is not None:
+                for c in parent.calls():
+                    if re.search(r"std::option::Option::<T>::(map|map_or|map_or_else|and_then|filter|is_some_and|inspect)$", c.decl) and c.args:
+                        uses_me = any(lf["kind"] == "agg" and lf["stmt"]["rv"].get("closure") == b.path for a in c.args[1:] for lf in parent.origins(a, passthrough={}))
+                        if uses_me and any(lf["kind"] == "call" and re.search(r"Iterator::(position|rposition)$", lf["call"].decl) for lf in parent.origins(c.args[0], passthrough={})):
+                            return Ival(0, LEN_MAX - 1, True)
         if proj == ["as Some", ".0"]:
             whole = [d for d in ds if not d[4]]
             if len(whole) == 1 and whole[0][2] == "call":
@@ -320,6 +331,18 @@ class Intervals:
         cur = pl
         for _ in range(10):
             if cur["p"]:
+                # (*_k).f where _k is a plain reborrow / copy of another reference (e.g. the receiver of a spliced-in helper):
+                # the same place as (*_j).f
+                if cur["p"][0] == "*":
+                    dsr = [d for d in b.defs(cur["l"]) if not d[4]]
+                    if len(dsr) == 1 and dsr[0][2] == "assign" and not (1 <= cur["l"] <= b.argc):
+                        rvr = dsr[0][3]["rv"]
+                        if rvr["r"] == "ref" and rvr["p"]["p"] == ["*"]:
+                            cur = {"l": rvr["p"]["l"], "p": cur["p"]}
+                            continue
+                        if rvr["r"] == "use" and op_place(rvr["o"]) is not None and not op_place(rvr["o"])["p"]:
+                            cur = {"l": op_place(rvr["o"])["l"], "p": cur["p"]}
+                            continue
                 return place_key(cur)
             l = cur["l"]
             ds = b.defs(l)
@@ -531,6 +554,27 @@ class Auditor:
                 # loop variable over 0..len(base)
                 if self.index_iterates_len(body, ops[1], ops[0], iv, s.bb):
                     return ("index", "index iterates 0..len of the indexed value")
+                # index = position of an element found by iterating the indexed value (possibly zipped with another one)
+                from terms import TermBuilder, render
+                tb_ = TermBuilder(body)
+                it_ = render(tb_.term(ops[1]))
+                mpos = re.match(r"^std::iter::Iterator::(position|rposition)\((.*), closure\{.*\}\)<Some>\.0$", it_)
+                if mpos:
+                    lroots2 = set()
+                    for l3 in body.origins(ops[0], passthrough={}):
+                        if l3["kind"] == "un" and l3["stmt"]["rv"]["op"] == "PtrMetadata":
+                            lroots2.add(render(tb_.term(l3["stmt"]["rv"]["a"])))
+                        elif l3["kind"] == "const":
+                            lroots2.add("const-len")
+                    inner_ = mpos.group(2)
+                    ln_c = iv.of_operand(ops[0], s.bb)
+                    if any(r_ != "const-len" and r_.lstrip("*&") in inner_ for r_ in lroots2):
+                        return ("index", "index is the position of an element of the indexed value")
+                    if ln_c is not None and ln_c.lo == ln_c.hi:
+                        # fixed-size array: the iterator runs over a value of the same static length (zip stops at the shorter one)
+                        import re as _re
+                        if _re.search(r"b\"(\\x[0-9a-f]{2}|.){%d}\"" % ln_c.lo, inner_) or "take(%d_usize)" % ln_c.lo in inner_:
+                            return ("index", "index is a position within an iterator of the array's static length %d" % ln_c.lo)
                 lroots = set()
                 for l3 in body.origins(ops[0], passthrough={}):
                     if l3["kind"] == "un" and l3["stmt"]["rv"]["op"] == "PtrMetadata":
@@ -616,6 +660,28 @@ class Auditor:
                 ends.append(e)
             if len(ends) == 2 and ends[0] is not None and ends[0] == ends[1]:
                 return ("index", "both slices are cut to the same length")
+            return None
+        if s.kind == "vec-precondition" and re.search(r"::(remove|swap_remove)$", c.decl) and len(c.args) > 1:
+            k_ = const_int(c.args[1])
+            if k_ is not None:
+                from terms import TermBuilder, render
+                from common import switch_info
+                tb_ = TermBuilder(body)
+                base_t = render(tb_.term(c.args[0]))
+                for sb in body.reachable():
+                    info = switch_info(body, sb)
+                    if not info or info["kind"] != "cmp":
+                        continue
+                    rv_ = info["stmt"]["rv"]
+                    a_, b_ = render(tb_.term(rv_["a"])), render(tb_.term(rv_["b"]))
+                    cst = const_int(rv_["b"]) if const_int(rv_["b"]) is not None else const_int(rv_["a"])
+                    lens = [x for x in (a_, b_) if x == "std::vec::Vec::<T, A>::len(%s)" % base_t]
+                    if cst is None or not lens:
+                        continue
+                    op_ = rv_["op"]
+                    holds_edge = info["true"] if op_ == "Eq" else info["false"] if op_ == "Ne" else None
+                    if holds_edge is not None and cst > k_ and body.dominates(holds_edge, c.bb) and body.pred(holds_edge) == [sb]:
+                        return ("index", "remove(%d) is only reached when the vector's length was tested to be %d" % (k_, cst))
             return None
         if s.kind == "vec-precondition" and c.decl.endswith("::drain") and len(c.args) > 1:
             pl = op_place(c.args[1])
